@@ -42,6 +42,11 @@ Definition final_state (f : final) : option state :=
 Definition alternatives (mode : Z) (s : state) (extra : tree) : option (list final) :=
   match mode with
   | 0 => Some (map final_of_rs (run_alts s))
+  (* two phases: a run, then (the printed output having been looked at) another run from the state the first one left *)
+  | 2 => Some (flat_map (fun r => match r with
+                                  | Running s1 _ | Finished s1 _ => map final_of_rs (run_alts s1)
+                                  | _ => [final_of_rs r]
+                                  end) (run_alts s))
   | 1 => olet p := dec_prog extra in
          Some [final_of_outcome (perform_prog code_prec p s);
                final_of_outcome (perform_prog (fun _ => true) p s);
